@@ -879,6 +879,13 @@ def h11_leaf_domains(ctx, roots):
                     if dom is None:
                         ctx.inconclusive("H11", where.file, where.short, call, f"{short} -> {enc}", f"cannot read the type switch of {enc} from the library source")
                         continue
+                    partial = sorted((t, ENCODER_VALUE_PARTIAL[(enc, t)]) for t in types if ENCODER_VALUE_PARTIAL.get((enc, t)))
+                    if partial and short not in LEAF_EXEMPT:
+                        t_, why_ = partial[0]
+                        ctx.violation("H11", where.file, where.short, call, f"{short} -> {enc} (values)",
+                                      f"the protocol selects {hs} for {short} under {rq.rsplit('.', 1)[-1]}; it hands node.object ({t_}) to {enc}, "
+                                      f"which accepts the type but not every value: {why_} - a document containing such a value cannot "
+                                      f"be rendered in this format")
                     bad = sorted(t for t in types if t not in dom)
                     if short in LEAF_EXEMPT:
                         ctx.note(f"H11: {short} -> {enc} not decided: {LEAF_EXEMPT[short]}")
@@ -893,6 +900,71 @@ def h11_leaf_domains(ctx, roots):
                         ctx.proved("H11", where.file, where.short, call, f"{short} -> {enc}",
                                    f"{hs}: {'/'.join(sorted(types))} is accepted by {enc}'s type switch")
     ctx.floor("H11", n, 8, "(handler, leaf class, encoder) triples")
+
+
+def h6b_copy_rewrap(ctx):
+    m = ctx.model
+    ctx.rule("H6b", "copy_from adopts the copies it is given: TreeNode.copy() hands copy_from the already copied children, each "
+                    "with its own sub-nodes attached; a copy_from that takes those sub-nodes apart (`child.key`, `child.value`, "
+                    "...) and feeds them to another container constructor / from_dict re-parents nodes that already have a parent, "
+                    "and the parent setter raises ValueError - copy() is reached while printing (container fallbacks copy children)")
+    n = 0
+    for q in sorted(m.subclasses(CONTAINER)):
+        own = m.attrs[q].get("copy_from")
+        if not own or own[0] != "def":
+            continue
+        f = own[1]
+        ps = func_params(f.node)
+        if len(ps) < 2:
+            continue
+        kids = ps[1]
+        n += 1
+        elems = set()
+        for g in walk_no_nested(f.node):
+            if isinstance(g, (ast.GeneratorExp, ast.ListComp, ast.DictComp, ast.SetComp)):
+                for gen in g.generators:
+                    if dotted(gen.iter) == kids and isinstance(gen.target, ast.Name):
+                        elems.add(gen.target.id)
+            if isinstance(g, ast.For) and dotted(g.iter) == kids and isinstance(g.target, ast.Name):
+                elems.add(g.target.id)
+        bad = None
+        for c in walk_no_nested(f.node):
+            if not isinstance(c, ast.Call):
+                continue
+            nm = call_name(c) or ""
+            builds = nm.endswith("from_dict") or nm.endswith("make_key_value_pair_node") or (m.resolve_class(f.module, c.func) and
+                                                                                             m.is_subclass(m.resolve_class(f.module, c.func), CONTAINER))
+            if not builds:
+                continue
+            for x in ast.walk(c):
+                # values (not dict keys used for lookup only) built from sub-nodes of the given children
+                if isinstance(x, ast.DictComp) and isinstance(x.value, ast.Attribute) and isinstance(x.value.value, ast.Name) and x.value.value.id in elems:
+                    if nm.endswith("from_dict") or nm.endswith("make_key_value_pair_node"):
+                        bad = (c, x.value)
+                if isinstance(x, ast.Attribute) and isinstance(x.value, ast.Name) and x.value.id in elems and any(x is a for a in c.args) \
+                        and not nm.endswith("__class__"):
+                    bad = (c, x)
+        short = q.rsplit(".", 1)[-1]
+        if bad:
+            c, x = bad
+            ctx.violation("H6b", f.file, f"{short}.copy_from", c, f"{short}.copy_from re-wraps adopted nodes",
+                          f"`{norm(c, 70)}` builds new containers around `{norm(x, 20)}`, a sub-node of a child that TreeNode.copy() already "
+                          f"copied and attached: the node has a parent, the new container's constructor assigns another one, and "
+                          f"TreeNode.parent's setter raises ValueError - e.g. under -k, when a formatter falls back to copying the "
+                          f"children of a container it has no handler for")
+        else:
+            ctx.proved("H6b", f.file, f"{short}.copy_from", f.node, f"{short}.copy_from re-wraps adopted nodes", "the given copies are adopted as they are", nontrivial=False)
+    ctx.floor("H6b", n, 3, "copy_from overrides of container nodes")
+
+
+# (encoder, static type) pairs for which the encoder raises on SOME values of that type (read from the library source:
+# plistlib._escape raises ValueError for control characters, _PlistWriter.write_value raises OverflowError for ints
+# outside [-2**63, 2**64))
+ENCODER_VALUE_PARTIAL = {
+    ("plistlib.dumps", "str"): "ValueError: strings can't contain control characters (plistlib._escape)",
+    ("plistlib.dumps", "bytes"): None,
+    ("plistlib.dumps", "int"): "OverflowError for integers outside [-2**63, 2**64) (plistlib._PlistWriter.write_value)",
+}
 
 
 def run(ctx):
@@ -923,6 +995,7 @@ def run(ctx):
     h10_release(ctx, cg)
     h11_leaf_domains(ctx, roots)
     h6_copy(ctx, reach)
+    h6b_copy_rewrap(ctx)
     ctx.assume("value-dependent failures inside third-party encoders (yaml.dump, plistlib.dumps, json.dumps on exotic "
                "objects) are not decided")
     ctx.assume("the engine's model of the formatting protocol (_get_formatter port) - validated against the runtime in "
